@@ -312,7 +312,9 @@ class Reuse(Sub):
                                       'keep_u': st.booleans(), 'shorter': st.sampled_from([0, 0, 0, 1, 3]),
                                       # how the potential reaches the re-used object: a new array assigned to the attribute, the attribute
                                       # left alone when the potential does not change (only sigma / gamma do), or the stored array overwritten in place
-                                      'how': st.sampled_from(['assign', 'assign', 'leave', 'inplace'])})
+                                      'how': st.sampled_from(['assign', 'assign', 'leave', 'inplace']),
+                                      # the same object on another grid of the SAME length (a re-spaced domain), with sigma kept or not
+                                      'rscale': st.sampled_from([1.0, 1.0, 1.0, 2.0, 0.5, 1.5]), 'keep_sigma': st.booleans()})
         return st.fixed_dictionaries({'closure': st.sampled_from(sorted(CLASSES)), 'alias': st.booleans(), 'flag': st.booleans(),
                                       'grid': base.map(lambda s: s['grid']), 'steps': st.lists(step, min_size=2, max_size=5)})
 
@@ -325,15 +327,21 @@ class Reuse(Sub):
         prev_u = None
         changed_u_same_len = False
         last_len = None
+        prev_sigma = None
+        last_scale = 1.0
         for i, stp in enumerate(spec['steps']):
             n = max(1, len(r_full) - stp['shorter'])
-            r = r_full[:n].copy()
+            r = r_full[:n].copy() * stp.get('rscale', 1.0)
             gamma = build_gamma(stp, n)
             if stp['keep_u'] and prev_u is not None and len(prev_u) == n:
                 u = prev_u
             else:
                 u = build_u(stp, r)
             sigma = sigma_of(stp, r)
+            if stp.get('keep_sigma') and prev_sigma is not None:
+                sigma = prev_sigma
+                if last_len == n and stp.get('rscale', 1.0) != last_scale:
+                    out.label('same-length-same-sigma-other-grid')
             if prev_u is not None and len(prev_u) == n and not np.array_equal(prev_u, u):
                 changed_u_same_len = True
             how = stp.get('how', 'assign')
@@ -358,6 +366,8 @@ class Reuse(Sub):
                 break
             prev_u = u
             last_len = n
+            prev_sigma = sigma
+            last_scale = stp.get('rscale', 1.0)
         out.nontrivial = changed_u_same_len
         out.label(which, 'flag' if flag else 'noflag', 'potential-changed-same-length' if changed_u_same_len else 'no-same-length-change')
         return out
